@@ -121,7 +121,8 @@ func (s *State) clone() *State {
 }
 
 type Outcome struct {
-	Kind string // "return", "panic", "stuck"
+	Kind string // "return", "panic", "stuck", "cutoff", "loopback"
+	Fr   *frame // for loopback outcomes: the frame at the back edge
 	St   *State
 	Ret  Val
 	Why  string
@@ -804,7 +805,7 @@ func (e *Engine) exec(st *State, fr *frame, b, pred *ssa.BasicBlock, idx, depth 
 			return e.stuck(st, "fell off block", token.NoPos)
 		}
 		if next == fr.stopAt {
-			return []Outcome{{Kind: "loopback", St: st}}
+			return []Outcome{{Kind: "loopback", St: st, Fr: fr}}
 		}
 		if e.MaxIter > 0 && next.Dominates(b) && isLoopHeader(next) {
 			if _, isIf := next.Instrs[len(next.Instrs)-1].(*ssa.If); !isIf {
@@ -1257,6 +1258,38 @@ func (e *Engine) binop(op token.Token, x, y Val, xt, rt types.Type) (Val, string
 				return &StrVal{S: sx.S + sy.S}, ""
 			}
 		}
+		if op == token.ADD {
+			// string concatenation of string forms
+			parts := func(v Val) ([]Val, bool) {
+				switch s := v.(type) {
+				case *StrVal:
+					if s.S == "" {
+						return nil, true
+					}
+					return []Val{s}, true
+				case *StrForm:
+					return s.Parts, true
+				}
+				return nil, false
+			}
+			if px, ok := parts(x); ok {
+				if py, ok := parts(y); ok {
+					all := append(append([]Val(nil), px...), py...)
+					// merge adjacent constants
+					var merged []Val
+					for _, p := range all {
+						if s, ok := p.(*StrVal); ok && len(merged) > 0 {
+							if last, ok := merged[len(merged)-1].(*StrVal); ok {
+								merged[len(merged)-1] = &StrVal{S: last.S + s.S}
+								continue
+							}
+						}
+						merged = append(merged, p)
+					}
+					return &StrForm{Parts: merged}, ""
+				}
+			}
+		}
 		return e.appOfType("op"+op.String(), rt, x, y), ""
 	}
 	fbits, isF := isFloatType(rt)
@@ -1284,6 +1317,19 @@ func (e *Engine) binop(op token.Token, x, y Val, xt, rt types.Type) (Val, string
 			if okx && oky && cy != 0 {
 				return formInt(cx / cy), ""
 			}
+			// unsigned division by 2^k is a right shift
+			if oky && !signed && cy > 0 && cy&(cy-1) == 0 && cy > 1 {
+				if _, isAtomLike := fx.SingleAtom(); isAtomLike {
+					sh := 0
+					for v := cy; v > 1; v >>= 1 {
+						sh++
+					}
+					bv := e.toBV(fx, w, signed)
+					if !strings.HasPrefix(bv.Key(), "{") && bvIsInputBits(bv) {
+						return e.fromBV(bv.shr(sh, false), rt), ""
+					}
+				}
+			}
 			return e.A.App("idiv", rt, fx, fy), ""
 		}
 		if c, ok := fy.Const(); ok && c.Sign() == 0 {
@@ -1295,6 +1341,20 @@ func (e *Engine) binop(op token.Token, x, y Val, xt, rt types.Type) (Val, string
 		cy, oky := fy.ConstInt()
 		if okx && oky && cy != 0 {
 			return formInt(cx % cy), ""
+		}
+		// unsigned remainder by 2^k keeps the low k bits
+		if oky && !signed && cy > 1 && cy&(cy-1) == 0 {
+			if _, isAtomLike := fx.SingleAtom(); isAtomLike {
+				k := 0
+				for v := cy; v > 1; v >>= 1 {
+					k++
+				}
+				bv := e.toBV(fx, w, signed)
+				if bvIsInputBits(bv) {
+					mask := bvConst(big.NewInt(cy-1), w)
+					return e.fromBV(bv.bitwise("&", mask), rt), ""
+				}
+			}
 		}
 		return e.A.App("rem", rt, fx, fy), ""
 	case token.SHL, token.SHR:
@@ -1622,4 +1682,15 @@ func (e *Engine) infeasible(c *BoolVal) bool {
 		return (allNonNeg && konst.Sign() > 0) || (allNonPos && konst.Sign() < 0)
 	}
 	return false
+}
+
+// bvIsInputBits reports whether every bit of b is a constant or a bit of a
+// byte / field atom (so that shifting it is meaningful provenance).
+func bvIsInputBits(b *BV) bool {
+	for _, bit := range b.Bits {
+		if bit.Kind == '?' {
+			return false
+		}
+	}
+	return true
 }
